@@ -1453,6 +1453,62 @@ def rule_r17(prog, res):
     res.floor('R17', 'faultstring elements in fault_to_parent', n, 1)
 
 
+def rule_r18(prog, res):
+    res.rule('R18', 'the fault writers of the XML family dispatch on the kind '
+             'of the detail only: no value of an accepted kind falls through '
+             'to the closing raise')
+    n = 0
+    for cfq in ('spyne.protocol.xml:XmlDocument',
+                'spyne.protocol.soap.soap12:Soap12'):
+        k = prog.cls(cfq)
+        f = k.methods.get('_fault_to_parent_impl')
+        if f is None or f.cls is not k:
+            continue
+        for top in walk_no_defs(f.node):
+            if not isinstance(top, ast.If) or (
+                    isinstance(parent(top), ast.If) and
+                    top in parent(top).orelse and
+                    len(parent(top).orelse) == 1):
+                continue
+            chain = []
+            cur = top
+            while True:
+                chain.append(cur)
+                if len(cur.orelse) == 1 and isinstance(cur.orelse[0], ast.If):
+                    cur = cur.orelse[0]
+                    continue
+                break
+            last = cur.orelse
+            if not any(isinstance(x, ast.Raise) for x in last) or not all(
+                    '.detail' in unparse(c.test) for c in chain):
+                continue
+            n += 1
+            for c in chain:
+                conj = c.test.values if isinstance(
+                    c.test, ast.BoolOp) and isinstance(
+                    c.test.op, ast.And) else [c.test]
+                kinds = [x for x in conj if (isinstance(x, ast.Call) and
+                         call_name(x) == 'isinstance') or (
+                         isinstance(x, ast.Compare) and isinstance(
+                             x.ops[0], ast.Is))]
+                extra = [x for x in conj if x not in kinds]
+                where = '%s:%d' % (f.module.relpath, c.lineno)
+                bad = bool(kinds) and bool(extra)
+                res.ob('R18', where, '%s._fault_to_parent_impl: branch "%s"'
+                       % (k.name, unparse(c.test)[:60]),
+                       'VIOLATED' if bad else 'ok')
+                if bad:
+                    res.finding('R18', '%s._fault_to_parent_impl|kind-branch-'
+                                'narrowed' % k.name, where, 'the branch for '
+                                '"%s" is taken only when "%s": the other '
+                                'values of that kind reach the closing '
+                                '"raise TypeError" while the error response '
+                                'is being built, so the client gets neither '
+                                'the fault nor its status' % (
+                                    unparse(kinds[0]), unparse(extra[0])))
+    res.floor('R18', 'detail dispatch chains in the XML fault writers', n, 2)
+
+
 def run(prog, res, tier):
     res.run_rule(rule_r8, prog, res)
     res.run_rule(rule_r1, prog, res, tier)
@@ -1470,6 +1526,7 @@ def run(prog, res, tier):
     res.run_rule(rule_r15, prog, res)
     res.run_rule(rule_r16, prog, res)
     res.run_rule(rule_r17, prog, res)
+    res.run_rule(rule_r18, prog, res)
 
 
 _A = 'spyne/application.py'
@@ -1480,6 +1537,16 @@ _H = 'spyne/protocol/dictdoc/hier.py'
 _F = 'spyne/model/fault.py'
 
 MUTANTS = [
+    Mutant('empty-detail-dict-falls-to-raise', 'R18', 'fire',
+           'spyne/protocol/xml.py',
+           in_func('XmlDocument._fault_to_parent_impl',
+                   "        elif isinstance(inst.detail, dict):\n"
+                   "            if len(inst.detail) > 0:\n"
+                   "                _append(",
+                   "        elif isinstance(inst.detail, dict) and "
+                   "len(inst.detail) > 0:\n"
+                   "            if True:\n"
+                   "                _append("), 'kind-branch-narrowed'),
     Mutant('fault-message-through-html-parser', 'R17', 'fire', _X,
            in_func('XmlDocument.fault_to_parent',
                    'E("faultstring", inst.faultstring),',
